@@ -306,8 +306,21 @@ func run(c *core.Ctx) {
 			}
 		}
 	}
+	if !c.Thorough() {
+		// three fields over the kinds that are same-package types (generated as dependencies, in field order,
+		// possibly reached twice)
+		deps := []int{4, 5, 6, 7, 8, 16}
+		for _, a := range deps {
+			for _, b := range deps {
+				for _, d := range deps {
+					all = append(all, Prog{Fields: []int{a, b, d}, PkgTag: false})
+				}
+			}
+		}
+		c.Bound("three_field_lists_over_same_package_kinds", []string{"tagged-struct", "untagged-dependency-struct", "nested-3-levels", "defined-scalar", "defined-map", "same-package-interface"})
+	}
 	if c.Thorough() {
-		reduced := []int{2, 4, 5, 6, 8, 9, 12}
+		reduced := []int{2, 4, 5, 6, 7, 8, 9, 12, 16}
 		for _, a := range reduced {
 			for _, b := range reduced {
 				for _, d := range reduced {
@@ -315,7 +328,7 @@ func run(c *core.Ctx) {
 				}
 			}
 		}
-		c.Bound("three_field_lists_over_kinds", []string{"[]int", "tagged-struct", "untagged-dependency-struct", "nested-3-levels", "defined-map", "error", "instantiated-generic"})
+		c.Bound("three_field_lists_over_kinds", []string{"[]int", "tagged-struct", "untagged-dependency-struct", "nested-3-levels", "defined-scalar", "defined-map", "error", "instantiated-generic", "same-package-interface"})
 	}
 	c.Bound("programs", len(all))
 	const batch = 300
@@ -340,7 +353,7 @@ func replay(c *core.Ctx, raw json.RawMessage) {
 func init() {
 	core.Register(&core.Prop{
 		ID: "C17", Level: "model_checking", Run: run, Replay: replay, Shards: 4,
-		Rule:        "(seam build: the second generation runs under descending map order in library and generator) every root struct with 1..2 fields (ordered) over 16 field kinds (scalars, string, slices/maps of scalars, tagged same-package struct, untagged dependency struct, 3-level nesting through untagged dependencies, defined scalar, defined map, error, any, named interface, field of an instantiated generic struct) x enabling tag on package vs on type x gengo:deepcopy:interfaces on/off x generic root (bare type-parameter field); each package generated TWICE by the real generator through the real pipeline (outputs compared), compiled with the package, and exercised by a harness-written check (nil, DeepEqual, mutate every reachable slice/map of the copy then compare the original with a snapshot, DeepCopyInto). Non-trivial = 2 fields; states = distinct (field count, tag placement, interfaces, failed?)",
+		Rule:        "(seam build: the second generation runs under descending map order in library and generator) every root struct with 1..2 fields (ordered; plus all 3-field lists over the same-package kinds) over 16 field kinds (scalars, string, slices/maps of scalars, tagged same-package struct, untagged dependency struct, 3-level nesting through untagged dependencies, defined scalar, defined map, error, any, named interface, field of an instantiated generic struct) x enabling tag on package vs on type x gengo:deepcopy:interfaces on/off x generic root (bare type-parameter field); each package generated TWICE by the real generator through the real pipeline (outputs compared), compiled with the package, and exercised by a harness-written check (nil, DeepEqual, mutate every reachable slice/map of the copy then compare the original with a snapshot, DeepCopyInto). Non-trivial = 2 fields; states = distinct (field count, tag placement, interfaces, failed?)",
 		Assumptions: []string{"pointer fields, slices of structs and slices over type parameters are outside the stated domain"},
 	})
 }
